@@ -194,6 +194,15 @@ class _E1(ast.NodeTransformer):
 
     def visit_Attribute(self, n):
         self.generic_visit(n)
+        # X.nonzero()[0].size  ->  len(X.nonzero()[0])      (a one-dimensional index array: its size is its length)
+        if n.attr == 'size' and isinstance(n.ctx, ast.Load) and isinstance(n.value, ast.Subscript) and isinstance(n.value.slice, ast.Constant) \
+                and n.value.slice.value == 0 and isinstance(n.value.value, ast.Call) and isinstance(n.value.value.func, ast.Attribute) \
+                and n.value.value.func.attr == 'nonzero' and not n.value.value.args:
+            return ast.copy_location(ast.Call(func=ast.Name(id='len', ctx=ast.Load()), args=[n.value], keywords=[]), n)
+        # self.<property> reads as the expression the property returns (one-expression properties of the same class)
+        props = getattr(self.callee_info, 'props', None) if self.callee_info is not None else None
+        if props and isinstance(n.ctx, ast.Load) and isinstance(n.value, ast.Name) and n.value.id == 'self' and n.attr in props:
+            return ast.copy_location(clone(props[n.attr]), n)
         # q.to(unit).value  ->  q.to_value(unit)      (astropy.units.Quantity: documented as the same number)
         if n.attr == 'value' and isinstance(n.ctx, ast.Load) and isinstance(n.value, ast.Call) and isinstance(n.value.func, ast.Attribute) \
                 and n.value.func.attr == 'to' and len(n.value.args) == 1 and not n.value.keywords:
@@ -289,6 +298,13 @@ class _E1(ast.NodeTransformer):
         if isinstance(n.slice, ast.Tuple):
             if any(as_slice(e) is not None for e in n.slice.elts):
                 n.slice.elts = [as_slice(e) or e for e in n.slice.elts]
+            # A[i, :]  ->  A[i]      (trailing full slices select everything that is left)
+            elts = list(n.slice.elts)
+            while len(elts) > 1 and isinstance(elts[-1], ast.Slice) and elts[-1].lower is None and elts[-1].upper is None and elts[-1].step is None \
+                    and not any(isinstance(e, ast.Constant) and e.value in (None, Ellipsis) for e in elts):
+                elts.pop()
+            if len(elts) != len(n.slice.elts):
+                n.slice = elts[0] if len(elts) == 1 else ast.Tuple(elts=elts, ctx=ast.Load())
         elif as_slice(n.slice) is not None:
             n.slice = as_slice(n.slice)
         # [a, b, c][1] -> b ; [a, b, c][1:] -> [b, c]      (a display of effect-free elements, constant bounds)
@@ -968,6 +984,83 @@ def _coalesce_copy(fn):
                     x.id = b
         del fn.body[idx]
         changed = True
+    # copy-in / copy-out: `a = b; <region that works on a and never mentions b>; b = a`, a unknown outside the region: the region works
+    # on b itself (an inlined helper that re-binds a parameter and returns it).  No statement of the region may leave it early.
+    has_try = any(isinstance(x, ast.Try) for x in ast.walk(fn))
+    for owner in ast.walk(fn):
+        for fld in ('body', 'orelse', 'finalbody'):
+            body = getattr(owner, fld, None)
+            if not (isinstance(body, list) and body and isinstance(body[0], ast.stmt)) or isinstance(owner, (ast.Lambda, ast.ClassDef)) or \
+                    (isinstance(owner, ast.FunctionDef) and owner is not fn):
+                continue
+            i = 0
+            while i < len(body):
+                st = body[i]
+                i += 1
+                if not (isinstance(st, ast.Assign) and len(st.targets) == 1 and isinstance(st.targets[0], ast.Name) and isinstance(st.value, ast.Name)):
+                    continue
+                a, b = st.targets[0].id, st.value.id
+                if a == b or a in params:
+                    continue
+                j = next((k for k in range(i, len(body)) if isinstance(body[k], ast.Assign) and len(body[k].targets) == 1
+                          and isinstance(body[k].targets[0], ast.Name) and body[k].targets[0].id == b and isinstance(body[k].value, ast.Name)
+                          and body[k].value.id == a), None)
+                if j is None:
+                    continue
+                region = body[i:j]
+                if any(isinstance(x, ast.Name) and x.id == b for r in region for x in ast.walk(r)):
+                    continue
+                if any(isinstance(x, (ast.Return, ast.Break, ast.Continue, ast.Lambda, ast.FunctionDef, ast.GeneratorExp, ast.ListComp, ast.SetComp, ast.DictComp))
+                       or (has_try and isinstance(x, ast.Raise)) for r in region for x in ast.walk(r)):
+                    continue
+                n_a = sum(1 for x in ast.walk(fn) if isinstance(x, ast.Name) and x.id == a)
+                n_in = sum(1 for r in region for x in ast.walk(r) if isinstance(x, ast.Name) and x.id == a) + 2
+                if n_a != n_in:
+                    continue
+                for r in region:
+                    for x in ast.walk(r):
+                        if isinstance(x, ast.Name) and x.id == a:
+                            x.id = b
+                del body[j]
+                del body[i - 1]
+                i -= 1
+                changed = True
+    # trailing copy: `<block that works on a>; t = a` with a unknown outside the block and t not mentioned in the block before: the
+    # block works on t itself
+    for owner in ast.walk(fn):
+        for fld in ('body', 'orelse'):
+            body = getattr(owner, fld, None)
+            if not (isinstance(body, list) and len(body) >= 2 and isinstance(body[0], ast.stmt)) or isinstance(owner, (ast.Lambda, ast.ClassDef, ast.FunctionDef)):
+                continue
+            for idx, st in enumerate(body):
+                if not (isinstance(st, ast.Assign) and len(st.targets) == 1 and isinstance(st.targets[0], ast.Name) and isinstance(st.value, ast.Name)):
+                    continue
+                t_, a = st.targets[0].id, st.value.id
+                if t_ == a or a in params:
+                    continue
+                before = body[:idx]
+                if any(isinstance(x, ast.Name) and x.id == t_ for r in before for x in ast.walk(r)):
+                    continue
+                if any(isinstance(x, ast.Name) and x.id == a for r in body[idx + 1:] for x in ast.walk(r)):
+                    continue
+                n_a = sum(1 for x in ast.walk(fn) if isinstance(x, ast.Name) and x.id == a)
+                n_in = sum(1 for r in before for x in ast.walk(r) if isinstance(x, ast.Name) and x.id == a) + 1
+                if n_a != n_in or n_in < 2:
+                    continue
+                if any(isinstance(x, (ast.Return, ast.Break, ast.Continue, ast.Lambda, ast.GeneratorExp, ast.ListComp, ast.SetComp, ast.DictComp))
+                       or (has_try and isinstance(x, ast.Raise)) for r in before for x in ast.walk(r)):
+                    continue
+                # a must be bound in the block before it is read there (it is the block's own variable)
+                first = next((x for r in before for x in ast.walk(r) if isinstance(x, ast.Name) and x.id == a), None)
+                if first is None or not isinstance(first.ctx, ast.Store):
+                    continue
+                for r in before:
+                    for x in ast.walk(r):
+                        if isinstance(x, ast.Name) and x.id == a:
+                            x.id = t_
+                del body[idx]
+                changed = True
+                break
     # the same inside a nested block (a loop body): b is the block's own variable - no occurrence outside the block, (re)bound by a
     # plain assignment at the block's own level before its first read - so it is dead after the copy in every pass; a lives only in the
     # rest of the block
@@ -3567,19 +3660,22 @@ def plain_argument_temps(fn):
         if isinstance(n, ast.Assign) and len(n.targets) == 1 and isinstance(n.targets[0], ast.Name) and re.match(r'_[hg]\d+_', n.targets[0].id) \
                 and stores.get(n.targets[0].id) == 1:
             v = n.value
-            plain = all(isinstance(x, (ast.Name, ast.Attribute, ast.Subscript, ast.Constant, ast.expr_context, ast.Tuple, ast.Slice, ast.UnaryOp, ast.USub))
+            plain = all(isinstance(x, (ast.Name, ast.Attribute, ast.Subscript, ast.Constant, ast.expr_context, ast.Tuple, ast.Slice, ast.UnaryOp, ast.USub, ast.BinOp, ast.Add))
+                        or (isinstance(x, ast.Call) and isinstance(x.func, ast.Attribute) and x.func.attr in ('upper', 'lower', 'strip') and not x.args and not x.keywords)
                         for x in ast.walk(v))
             free = {x.id for x in ast.walk(v) if isinstance(x, ast.Name)}
             def steady(x, at=n):
                 if stores.get(x, 0) == 0:
                     return True
-                if stores.get(x) != 1 or x in params:
+                if x in params:
                     return False
-                # the variable of a loop that holds the temporary: one value per pass, as for the temporary
-                for lp in ast.walk(c):
-                    if isinstance(lp, ast.For) and any(isinstance(t, ast.Name) and t.id == x for t in ast.walk(lp.target)):
-                        return any(y is at for b in lp.body for y in ast.walk(b))
-                return False
+                # the variable of a loop that holds the temporary: one value per pass, as for the temporary (the name may serve several
+                # loops one after the other, but is bound by loops only)
+                loops = [lp for lp in ast.walk(c) if isinstance(lp, ast.For) and any(isinstance(t, ast.Name) and t.id == x for t in ast.walk(lp.target))]
+                if len(loops) != stores.get(x):
+                    return False
+                inside = [lp for lp in loops if any(y is at for b in lp.body for y in ast.walk(b))]
+                return len(inside) == 1 and not any(l2 is not inside[0] and any(y is l2 for y in ast.walk(inside[0])) for l2 in loops)
             if plain and all(steady(x) for x in free):
                 mapping[n.targets[0].id] = v
                 drop.add(id(n))
